@@ -534,6 +534,13 @@ func (d *protoDom) glueCall(st *sState, call *ssa.Call, name string, args []sVal
 				short = role[strings.LastIndex(role, ".")+1:]
 			}
 		}
+		// a summary describes one signature; a helper that was reshaped (a result instead of an out-parameter, fewer
+		// arguments) is followed through its body instead
+		if want, ok := map[string]int{"cryptoBlocks": 5, "gHashUpdate": 4, "gHashFinish": 5, "calculateFirstCounter": 4}[short]; ok {
+			if len(args) != want || cal.Signature.Results().Len() != 0 {
+				short = ""
+			}
+		}
 		switch short {
 		case "cryptoBlocks": // (g, roundKeys, out, in, preCounter)
 			out, ok1 := args[2].(gSlice)
